@@ -25,6 +25,8 @@ ns = {"s": s}
 exec(edit, ns)
 s = ns["s"]
 assert s != before, "edit did not apply"
+import os
+os.makedirs(os.path.dirname(p), exist_ok=True)
 open(p, "w").write(s)
 PY
   timeout 120 "$BIN" "$W/$n/repo/src" "$W/$n/out" > "$W/$n/log" 2>&1; rc=$?
@@ -77,5 +79,50 @@ case_ y16_build_rs build.rs 's = "fn main() {}\n"'
 case_ y17_value_use_tuple src/rounding.rs 's = s.replace("pub fn round_down(fp: &mut ExtendedFloat, shift: i32) {", "pub fn round_down(fp: &mut ExtendedFloat, shift: i32) {\n    let (alias, _k) = (fp, 0);\n    let fp = alias;", 1)'
 case_ y18_overflow_lint_attr src/mask.rs 's = s.replace("#[inline]\npub fn nth_bit", "#[inline]\n#[allow(overflowing_literals)]\npub fn nth_bit", 1)'
 case_ y19_self_const_outside_float src/number.rs 's = s.replace("&& self.mantissa <= F::MAX_MANTISSA_FAST_PATH", "&& self.mantissa <= Self::MAX_MANTISSA_FAST_PATH", 1)'
+# ---- round 3 variants (each isolates one of the new checks)
+case_ z01_impl_in_assert_unread src/table_bellerophon.rs 's = s + "\npub fn selfcheck() { assert!({ impl crate::number::Number { pub fn default() -> Self { crate::number::Number { exponent: 0, mantissa: 1, many_digits: false } } } true }); }\n"'
+case_ z02_impl_in_matches_front examples/simple.rs 's = s + "\nstruct Local;\nfn selfcheck() -> bool { matches!(0u8, 0 if { impl Local { fn is_some(self) -> bool { false } } true }) }\n"'
+case_ z03_impl_in_nested_macro src/mask.rs 's = s + "\npub fn selfcheck() -> bool { matches!(nth_bit(0), 1 if [(); { impl crate::number::Number { pub fn default() -> Self { crate::number::Number { exponent: 0, mantissa: 1, many_digits: false } } } 0 }].len() == 0) }\n"'
+case_ z04_macro_rule_with_impl src/slow.rs 's = s.replace("macro_rules! add_temporary {\n", "macro_rules! add_temporary {\n    (@x) => { impl crate::number::Number { pub fn default() -> Self { crate::number::Number { exponent: 0, mantissa: 1, many_digits: false } } } };\n", 1)'
+case_ z05_libm_macro_rule_with_impl src/libm.rs 's = s.replace("macro_rules! i {\n", "macro_rules! i {\n    (@x) => { impl crate::number::Number { pub fn default() -> Self { crate::number::Number { exponent: 0, mantissa: 1, many_digits: false } } } };\n", 1)'
+case_ z06_lenient_impl_foreign_type etc/correctness/test-parse-unittests/main.rs 's = s + "\nimpl std::fmt::Display for Option<u32> { fn fmt(&self, f: &mut std::fmt::Formatter) -> std::fmt::Result { Ok(()) } }\n"'
+case_ z07_lenient_impl_generic etc/correctness/rng-tests/_common.rs 's = s + "\nstruct W;\nimpl<T> core::ops::Add<T> for W { type Output = W; fn add(self, _o: T) -> W { self } }\nimpl<T> From<T> for T { }\n"'
+case_ z08_lenient_impl_method_name etc/correctness/test-parse-random/_common.rs 's = s + "\nstruct W;\nimpl W { fn is_some(self) -> bool { false } }\n"'
+case_ z09_lenient_trait etc/correctness/rng-tests/_common.rs 's = s + "\ntrait Harmless { fn harmless(&self) -> u8 { 0 } }\n"'
+case_ z10_strict_front_trait fuzz/fuzz_targets/parse.rs 's = s + "\ntrait Harmless { fn harmless(&self) -> u8 { 0 } }\n"'
+case_ z11_cargo_dotted_build Cargo.toml 's = "package.build = \"x.rs\"\n" + s'
+case_ z12_cargo_test_target Cargo.toml 's = s + "\n[[test]]\nname = \"t\"\n"'
+case_ z13_cargo_profile Cargo.toml 's = s + "\n[profile.release]\noverflow-checks = true\n"'
+case_ z14_cargo_features Cargo.toml 's = s.replace("default = [\"std\"]", "default = [\"std\", \"compact\"]", 1)'
+case_ z15_cargo_alloc_implies_compact Cargo.toml 's = s.replace("alloc = []", "alloc = [\"compact\"]", 1)'
+case_ z16_cargo_edition Cargo.toml 's = s.replace("edition = \"2018\"", "edition = \"2021\"", 1)'
+case_ z17_cargo_inline_dep Cargo.toml 's = "dependencies = { ptr = { path = \"etc/ptr\" } }\n" + s'
+case_ z18_cargo_unparsable Cargo.toml 's = s + "\n[features\n"'
+case_ z19_cargo_escaped_key Cargo.toml 's = s + "\n[\"\\u006cib\"]\n\"p\\u0061th\" = \"src/lib_entry.rs\"\n"'
+case_ z20_cargo_config .cargo/config.toml 's = "[build]\nrustflags = [\"--cfg\", \"feature=\\\"compact\\\"\"]\n"'
+case_ z21_import_dropped src/stackvec.rs 's = s.replace("use core::{cmp, mem, ops, ptr, slice};", "use core::{cmp, mem, ops, slice};", 1)'
+case_ z22_space_in_feature_cfg src/bigint.rs 's = s.replace("#[cfg(feature = \"alloc\")]\npub type VecType", "#[cfg(feature = \"al loc\")]\npub type VecType", 1)'
+case_ z23_space_in_stmt_cfg src/parse.rs 's = s.replace("    #[cfg(not(feature = \"compact\"))]\n    return lemire::<F>(num);", "    #[cfg(not(feature = \"comp act\"))]\n    return lemire::<F>(num);", 1)'
+case_ z24_space_in_file_cfg src/lemire.rs 's = s.replace("#![cfg(not(feature = \"compact\"))]", "#![cfg(not(feature = \"compact \"))]", 1)'
+case_ z25_raw_type_alias src/lemire.rs 's = s + "\ntype r#u128 = u64;\n"'
+case_ z26_raw_mod_lenient etc/correctness/rng-tests/_common.rs 's = s + "\nmod r#i32 { }\n"'
+case_ z27_raw_let src/parse.rs 's = s.replace("fn into_i32(value: usize) -> i32 {", "fn into_i32(value: usize) -> i32 {\n    let r#LIMB_BITS: usize = 32;", 1)'
+case_ z28_raw_in_macro_args src/mask.rs 's = s + "\npub fn selfcheck() -> bool { matches!(nth_bit(0), r#x if r#x == 1) }\n"'
+case_ z29_table_rs_new_item src/table.rs 's = s + "\npub const UNRELATED: u32 = 1;\n"'
+case_ z30_table_rs_reexport_dropped src/table.rs 's = s.replace("#[cfg(not(feature = \"compact\"))]\npub use crate::table_small::*;\n", "", 1)'
+case_ z31_no_mangle_unread src/libm.rs 's = s + "\n#[no_mangle]\npub extern \"C\" fn memcpy_probe() {}\n"'
+case_ z32_used_static_lenient etc/correctness/test-parse-unittests/main.rs 's = s + "\n#[used]\n#[link_section = \".init_array\"]\nstatic INIT: extern \"C\" fn() = { extern \"C\" fn f() {} f };\n"'
+case_ z33_no_mangle_lenient etc/correctness/rng-tests/_common.rs 's = s + "\n#[no_mangle]\npub fn helper_probe() {}\n"'
+case_ z34_extern_block_lenient etc/correctness/rng-tests/_common.rs 's = s + "\nextern \"C\" { fn abs(x: i32) -> i32; }\n"'
+case_ z35_global_asm src/mask.rs 's = s + "\ncore::arch::global_asm!(\"nop\");\n"'
+case_ z36_asm_in_fn src/rounding.rs 's = s.replace("pub fn round_down(fp: &mut ExtendedFloat, shift: i32) {", "pub fn round_down(fp: &mut ExtendedFloat, shift: i32) {\n    unsafe { core::arch::asm!(\"nop\") };", 1)'
+case_ z37_asm_changed_unread src/fpu.rs 's = s.replace("\"fldcw word ptr [{}]\"", "\"fldcw  word ptr [{}]\"", 1)'
+case_ z38_prelude_trait_name src/extended_float.rs 's = s + "\npub trait PartialEq { fn harmless(&self) -> u8 { 0 } }\n"'
+case_ z39_prelude_trait_from src/num.rs 's = s + "\npub trait From<T> { fn from(t: T) -> Self; }\n"'
+case_ z40_derive_list src/extended_float.rs 's = s.replace("#[derive(Clone, Copy, Debug, PartialEq, Eq)]\npub struct ExtendedFloat", "#[derive(Clone, Copy, Debug, PartialEq, Eq, Hash)]\npub struct ExtendedFloat", 1)'
+case_ z41_derive_on_powers src/bellerophon.rs 's = s.replace("pub struct BellerophonPowers {", "#[derive(Default)]\npub struct BellerophonPowers {", 1)'
+case_ z42_prelude_macro_name etc/correctness/rng-tests/_common.rs 's = s + "\nmacro_rules! matches { ($a:expr, $b:pat) => { false }; }\n"'
+case_ z43_static_in_read_file src/mask.rs 's = s + "\npub static PROBE: u64 = 3;\n"'
+case_ z44_unread_attr_moved src/table_bellerophon.rs 's = s + "\n#[cold]\npub fn probe() {}\n"'
 if [ $fails -eq 0 ]; then echo "redteam_extra: PASS"; else echo "redteam_extra: $fails FAILURE(S)"; fi
 exit $fails
